@@ -107,6 +107,8 @@ async def api_sequence(loop, kind, cat, budget, seq, out, stats, fps):
             except Exception as e:  # noqa: BLE001
                 out.append(V("wrong_exception", kind, f"{action}", f"{list(seq)}[{i}] on {ctxb}: raised {type(e).__name__}: {e}"))
                 break
+            # (a refused call must not leave work behind that touches the broker a moment later either)
+            await asyncio.sleep(0.02)
             calls = [e for e in rig.log.events[n0:] if e.get("k") == "call" and e.get("depth") == 0 and e.get("op") in ("ack", "nack", "reject", "requeue", "enqueue")]
             stats["calls_judged"] += 1
             where = f"sequence {list(seq)} step {i} ({action}) on a {cat} message, retry budget {budget}"
